@@ -303,6 +303,47 @@ theorem reports_spec_decoded (b : Int) (g o : Nat) (a : List CheckResult) :
     spec (ensureDefaults b g o) a (reports (ensureDefaults b g o) a) = true :=
   reports_spec _ (ensureDefaults_batch_ge_one b g o) a
 
+/-! ### partial configuration documents -/
+
+/-- a partial document decodes to the documented default for every member it leaves out -/
+theorem decodeCfg_absent_defaults :
+    decodeCfg { batch := none, gasLimit := none, overhead := none } = { batch := 1, gasLimit := 5300000, overhead := 300000 } := by
+  decide
+
+/-- member by member: an absent member gives the default, a present one goes through `ensureMinimumDefaults` -/
+theorem decodeCfg_members (doc : WireCfg) :
+    (decodeCfg doc).batch = (match doc.batch with | none => 1 | some b => if b ≤ 0 then 1 else b.toNat) ∧
+    (decodeCfg doc).gasLimit = (match doc.gasLimit with | none => 5300000 | some g => if g = 0 then 5300000 else g) ∧
+    (decodeCfg doc).overhead = (match doc.overhead with | none => 300000 | some o => if o = 0 then 300000 else o) := by
+  cases doc with
+  | mk b g o => cases b <;> cases g <;> cases o <;> exact ⟨rfl, rfl, rfl⟩
+
+/-- every decoded document — partial or not — meets the property's hypothesis, so `reports_spec` applies -/
+theorem decodeCfg_batch_ge_one (doc : WireCfg) : 1 ≤ (decodeCfg doc).batch :=
+  ensureDefaults_batch_ge_one _ _ _
+
+theorem reports_spec_partial (doc : WireCfg) (a : List CheckResult) :
+    spec (decodeCfg doc) a (reports (decodeCfg doc) a) = true :=
+  reports_spec _ (decodeCfg_batch_ge_one doc) a
+
+/-- decoding into a retained value is the same function only while nothing was retained … -/
+theorem decodeRetained_zero (doc : WireCfg) : decodeRetained rawZero doc = decodeCfg doc := rfl
+
+/-- … and for documents that spell every member out -/
+theorem decodeRetained_full (held : RawCfg) (b : Int) (g o : Nat) :
+    decodeRetained held { batch := some b, gasLimit := some g, overhead := some o } =
+      decodeCfg { batch := some b, gasLimit := some g, overhead := some o } := rfl
+
+/-- otherwise it is not a function of the document: after an instance configured with batch size 7, the document `{}`
+gives batch size 7 instead of 1, and the same agreed performables are cut into other reports (1 report instead of 3) -/
+theorem decodeRetained_depends_on_history :
+    let held : RawCfg := { batch := 7, gasLimit := 1000000, overhead := 11 }
+    let doc : WireCfg := { batch := none, gasLimit := none, overhead := none }
+    decodeRetained held doc ≠ decodeCfg doc ∧
+    (reports (decodeRetained held doc) [w "a" "1" 400, w "b" "2" 300, w "c" "3" 200]).length = 1 ∧
+    (reports (decodeCfg doc) [w "a" "1" 400, w "b" "2" 300, w "c" "3" 200]).length = 3 := by
+  decide
+
 /-- every decoded off-chain configuration satisfies the property's `batch ≥ 1` hypothesis -/
 theorem defaultBatch_ge_one (b : Int) : 1 ≤ defaultBatch b := by
   unfold defaultBatch; split <;> omega
